@@ -124,6 +124,35 @@ CHECKS = {
         technique="TLA+ pipeline model over real schema history, TLC exhaustive, every configuration replayed into convert_version + checker + ORT",
         design_ref="DESIGN.md section 4 C10",
     ),
+    "C14": dict(
+        level="model_checking",
+        text="History.tla models the PROCESS as a state machine: everything that outlives a call (Opset.cache, the type shape cache, the _pattern_builder "
+             "global and its context stack, per rule which check() last wrote each field rewrite() reads, lazily compiled patterns, FoldConstantsPass "
+             "state, default evaluator, Parameter._realized, script module globals versions) and 25 concrete operations as sequences of critical steps "
+             "(24 Ev* actions), each also run on a shadow state started fresh; invariant HistoryIndependent (result after any history = result in a fresh "
+             "process, for every set-order choice), Explained, GlobalsRestored. The step catalogue is recorded from the real code; TLC enumerates all "
+             "ordered pairs/triples (quadruples in thorough) and simulated length-8 histories. Each history is replayed in a forked child of a freshly "
+             "imported interpreter under several PYTHONHASHSEEDs; every operation's serialized result is compared with the fresh-process result, state "
+             "snapshots (incl. a generic scan of onnxscript module globals) with the spec state, and instrumented step sequences with TLC's prediction.",
+        note="references use truly fresh interpreters, histories forked children of a fresh zygote per hash seed; exception messages and eager calls after "
+             "global mutation are not judged",
+        technique="TLA+ process-state machine with shadow fresh state, TLC exhaustive over operation histories, histories replayed in fresh processes under several hash seeds",
+        design_ref="DESIGN.md section 4 C14",
+    ),
+    "C18": dict(
+        level="model_checking",
+        text="Builder.tla/BuilderSem.tla model GraphBuilder/OpBuilder as a state machine deriving a traced program call by call (CallOp, Push/Pop, "
+             "OpenIf/CloseThen/CloseElse, OpenLoop, OpenScan, CallFn, InlineFn) with each step of call_op as a named operator (schema partition and "
+             "type-variable binding, literal promotion and constant cache, output and node naming, sub-builder frames, inlining) over the real onnx "
+             "signatures and the real function bodies (JSON); ModuleTree.tla models nn module trees built by New/SetAttr/Append with the three _set_name "
+             "and two _register_child variants and call policies. Invariants DesignOK, DeviationsExplain, ScopeBalanced. Every printed trace is replayed "
+             "into a real GraphBuilder and every tree into real onnxscript.nn classes: checker, Graph!WF via TLC, ORT vs a NumPy replay of the trace, "
+             "wiring of the built graph vs the traced calls, initializer names vs root name + state_dict() keys, second build.",
+        note="explicit module names equal the attribute they are assigned to; exhaustive runs use a small operator menu, the full 44-operator menu is "
+             "covered by simulation; -0.0/nan literals are left to C12",
+        technique="TLA+ builder and module-tree state machines over real signatures, TLC exhaustive + simulation, each trace/tree replayed into GraphBuilder/nn + ORT + GraphCheck",
+        design_ref="DESIGN.md section 4 C18",
+    ),
     "C15": dict(
         level="model_checking",
         text="ProtoIR.tla models each proto wrapper step by step (deserialize with payload aliasing, passes, serialize, Clear/CopyFrom, graph-only copy-back) "
